@@ -166,7 +166,8 @@ extern MPT_INTERFACE(metatype) *_mpt_iterator_factor(MPT_STRUCT(value) *val)
 			if (ret >= 0) {
 				++cont;
 			}
-			if (cont < 2) {
+			/* no factor supplied */
+			if (cont < 3) {
 				if (fd.base < DBL_MIN) {
 					errno = EINVAL;
 					return 0;
